@@ -160,6 +160,51 @@ func checkC01(c *ev.Ctx) {
 			det["what"] = fmt.Sprintf("decoded %d bytes differ from the %d input bytes (first difference at %d)", len(out), len(run.Data), firstDiff(out, run.Data))
 			c.Violation("roundtrip-mismatch", det)
 		}
+		// small streams once more with writer and reader joined directly by io.Pipe: each Write
+		// the writer issues to its sink (zero-length ones included) is one Read result of the reader
+		if len(run.Sink.Buf) <= 12000 && len(run.Data) > 0 && (k.Check == "none" || i%3 == 0) {
+			pr, pw := io.Pipe()
+			var werr error
+			done := make(chan struct{})
+			go func() {
+				defer close(done)
+				if p := mon.Guard(func() {
+					w, err := k.config().NewWriter(pw)
+					if err != nil {
+						werr = err
+						return
+					}
+					pos := 0
+					for _, l := range k.partition(len(run.Data)) {
+						if _, werr = w.Write(run.Data[pos : pos+l]); werr != nil {
+							return
+						}
+						pos += l
+					}
+					werr = w.Close()
+				}); p != nil {
+					werr = fmt.Errorf("panic: %s", p.Value)
+				}
+				pw.CloseWithError(werr)
+			}()
+			var pout []byte
+			var perr error
+			if p := mon.Guard(func() {
+				var r *xz.Reader
+				if r, perr = (xz.ReaderConfig{DictCap: 4096}).NewReader(pr); perr == nil {
+					pout, perr = io.ReadAll(r)
+				}
+			}); p != nil {
+				perr = fmt.Errorf("panic: %s", p.Value)
+			}
+			pr.Close()
+			<-done
+			c.Count("pipe_round_trips", 1)
+			if werr != nil || perr != nil || !bytes.Equal(pout, run.Data) {
+				det["what"] = fmt.Sprintf("writer and reader joined by io.Pipe: writer %v, reader %v, %d of %d bytes decoded", werr, perr, len(pout), len(run.Data))
+				c.Violation("roundtrip-through-pipe", det)
+			}
+		}
 		bc := "1"
 		if blocks > 1 {
 			bc = "n"
